@@ -207,6 +207,15 @@ class Normalizer(ast.NodeTransformer):
         inside = {id(n) for n in ast.walk(loop)}
         return {n.id for n in ast.walk(fn) if isinstance(n, ast.Name) and id(n) not in inside}
 
+    # ------------------------------------------------------------------ N9: annotated local -> plain assignment
+    def visit_AnnAssign(self, node):
+        self.generic_visit(node)
+        if self.func_stack and node.value is not None and isinstance(node.target, ast.Name) and node.simple:
+            new = ast.Assign(targets=[node.target], value=node.value, type_comment=None)
+            self.count += 1
+            return ast.copy_location(new, node)
+        return node
+
     # ------------------------------------------------------------------ N5 / N6
     def visit_BinOp(self, node):
         self.generic_visit(node)
